@@ -759,7 +759,8 @@ impl CommandExecutor for DrawExecutor {
     fn get_picture_data(&mut self) -> Option<(Size, Vec<u8>)> {
         let mut pixels = Vec::new();
         for i in &self.screen {
-            let (r, g, b) = self.pen_colors[*i as usize].get_rgb();
+            // a pixel may hold a pen number the palette does not have (e.g. a colour > 15 set by ColorSet): black
+            let (r, g, b) = self.pen_colors.get(*i as usize).map_or((0, 0, 0), |c| c.get_rgb());
 
             pixels.push(r);
             pixels.push(g);
